@@ -5,6 +5,8 @@ package vharn
 import (
 	"bytes"
 	"encoding/xml"
+	"mime/multipart"
+	"net/http"
 	"net/url"
 
 	"github.com/johannesboyne/gofakes3"
@@ -53,16 +55,16 @@ func (r *Recorder) BucketNames() []string {
 
 func (r *Recorder) List() (v ListView) {
 	var d struct {
-		XMLName        xml.Name
-		IsTruncated    bool   `xml:"IsTruncated"`
-		Prefix         string `xml:"Prefix"`
-		Delimiter      string `xml:"Delimiter"`
-		MaxKeys        int64  `xml:"MaxKeys"`
-		NextMarker     string `xml:"NextMarker"`
-		NextToken      string `xml:"NextContinuationToken"`
-		KeyCount       int64  `xml:"KeyCount"`
-		HasKeyCount    *int64 `xml:"KeyCount"`
-		Contents       []struct {
+		XMLName     xml.Name
+		IsTruncated bool   `xml:"IsTruncated"`
+		Prefix      string `xml:"Prefix"`
+		Delimiter   string `xml:"Delimiter"`
+		MaxKeys     int64  `xml:"MaxKeys"`
+		NextMarker  string `xml:"NextMarker"`
+		NextToken   string `xml:"NextContinuationToken"`
+		KeyCount    int64  `xml:"KeyCount"`
+		HasKeyCount *int64 `xml:"KeyCount"`
+		Contents    []struct {
 			Key  string `xml:"Key"`
 			Size int64  `xml:"Size"`
 			ETag string `xml:"ETag"`
@@ -72,15 +74,15 @@ func (r *Recorder) List() (v ListView) {
 		} `xml:"CommonPrefixes"`
 	}
 	d2 := struct {
-		XMLName        xml.Name
-		IsTruncated    bool   `xml:"IsTruncated"`
-		Prefix         string `xml:"Prefix"`
-		Delimiter      string `xml:"Delimiter"`
-		MaxKeys        int64  `xml:"MaxKeys"`
-		NextMarker     string `xml:"NextMarker"`
-		NextToken      string `xml:"NextContinuationToken"`
-		KeyCount       *int64 `xml:"KeyCount"`
-		Contents       []struct {
+		XMLName     xml.Name
+		IsTruncated bool   `xml:"IsTruncated"`
+		Prefix      string `xml:"Prefix"`
+		Delimiter   string `xml:"Delimiter"`
+		MaxKeys     int64  `xml:"MaxKeys"`
+		NextMarker  string `xml:"NextMarker"`
+		NextToken   string `xml:"NextContinuationToken"`
+		KeyCount    *int64 `xml:"KeyCount"`
+		Contents    []struct {
 			Key  string `xml:"Key"`
 			Size int64  `xml:"Size"`
 			ETag string `xml:"ETag"`
@@ -309,3 +311,20 @@ func VersioningBody(status string) []byte {
 }
 
 func MalformedXMLBody() []byte { return []byte("<Unclosed><a>") }
+
+// FormReq builds a browser-form POST with a real multipart/form-data body.
+func FormReq(path string, fields map[string]string, fileContent []byte) Req {
+	var buf bytes.Buffer
+	w := multipart.NewWriter(&buf)
+	for k, v := range fields {
+		w.WriteField(k, v)
+	}
+	fw, err := w.CreateFormFile("file", "upload.bin")
+	if err != nil {
+		panic(err)
+	}
+	fw.Write(fileContent)
+	w.Close()
+	hdr := http.Header{"Content-Type": {w.FormDataContentType()}}
+	return Req{Method: "POST", Path: path, Header: hdr, Body: bytes.NewReader(buf.Bytes()), Length: int64(buf.Len())}
+}
